@@ -235,10 +235,11 @@ def t_insert_select_same_table_is_buffered():
     e, s = new()
     s.execute('CREATE TABLE t (k INT PRIMARY KEY, v INT)')
     s.execute('INSERT INTO t VALUES (1, 10), (2, 20)')
-    s.execute('INSERT INTO t (k, v) SELECT k, @n := v FROM t ON DUPLICATE KEY UPDATE v = v + @n')
+    q = 'INSERT INTO t (k, v) SELECT s.k, @n := s.v FROM t AS s ON DUPLICATE KEY UPDATE v = t.v + @n'
+    s.execute(q)
     assert s.query('SELECT k, v FROM t') == [{'k': 1, 'v': 30}, {'k': 2, 'v': 40}]
     e.insert_select_same_table_buffered = False      # the switch exposes the streaming alternative
-    s.execute('INSERT INTO t (k, v) SELECT k, @n := v FROM t ON DUPLICATE KEY UPDATE v = v + @n')
+    s.execute(q)
     assert s.query('SELECT k, v FROM t') == [{'k': 1, 'v': 60}, {'k': 2, 'v': 80}]
 
 
@@ -503,6 +504,121 @@ def t_driver_param_binding():
         pass
 
 
+@test
+def t_concurrency_model_and_driver():
+    # One transaction at a time (gate from START TRANSACTION to COMMIT/ROLLBACK); on_transaction_start lets a
+    # harness choose the order; fault_hook injects pymysql errors; aiomysql-style pool / cursors.
+    driver.install()
+    import aiomysql
+    import pymysql
+
+    async def run():
+        e = Engine()
+        driver.set_engine(e)
+        s0 = e.connect()
+        s0.execute('CREATE TABLE t (k INT PRIMARY KEY, v INT)')
+        s0.execute('CREATE TABLE u (k INT PRIMARY KEY, name VARCHAR(10))')
+        s0.execute("INSERT INTO t VALUES (1, 0)")
+        s0.execute("INSERT INTO u VALUES (1, 'x')")
+        pool = await aiomysql.create_pool(maxsize=2, host='localhost', user='u', password='p', db='d', port=3306,
+                                          charset='utf8', cursorclass=aiomysql.cursors.DictCursor, autocommit=False)
+        assert isinstance(pool, aiomysql.Pool)
+        trace = []
+
+        async def txn(name, delay):
+            async with pool.acquire() as conn:
+                async with conn.cursor() as cur:
+                    await cur.execute('START TRANSACTION;')
+                    trace.append(name + ':begin')
+                    await cur.execute('SELECT v FROM t WHERE k = 1 FOR UPDATE')
+                    v = (await cur.fetchone())['v']
+                    await asyncio.sleep(delay)              # other coroutines run here but cannot start a txn
+                    await cur.execute('UPDATE t SET v = %s WHERE k = 1', (v + 1,))
+                    assert cur.rowcount == 1
+                await conn.commit()
+                trace.append(name + ':commit')
+        await asyncio.gather(txn('a', 0.01), txn('b', 0))
+        assert trace in (['a:begin', 'a:commit', 'b:begin', 'b:commit'], ['b:begin', 'b:commit', 'a:begin', 'a:commit']), trace
+        assert s0.query('SELECT v FROM t')[0]['v'] == 2           # no lost update
+        # harness-controlled ordering through on_transaction_start
+        parked = {}
+
+        async def park(sess):
+            fut = asyncio.get_running_loop().create_future()
+            parked[sess.id] = fut
+            await fut
+        e.on_transaction_start = park
+        trace.clear()
+        tasks = [asyncio.ensure_future(txn(n, 0)) for n in 'xyz'[:2]]
+        await asyncio.sleep(0.01)
+        assert len(parked) == 2 and trace == []
+        order = sorted(parked, reverse=True)
+        for sid in order:
+            parked[sid].set_result(None)
+            await asyncio.sleep(0.01)
+        await asyncio.gather(*tasks)
+        e.on_transaction_start = None
+        assert s0.query('SELECT v FROM t')[0]['v'] == 4
+        # pool size limit: a third acquire waits until a connection is released
+        c1 = await pool.acquire()
+        c2 = await pool.acquire()
+        t3 = asyncio.ensure_future(pool.acquire().__aenter__())
+        await asyncio.sleep(0.01)
+        assert not t3.done()
+        await pool.release(c1)
+        c3 = await asyncio.wait_for(t3, 1)
+        # DictCursor names a repeated column `table.column` (pymysql DictCursorMixin)
+        async with c3.cursor() as cur:
+            await cur.execute('SELECT * FROM t LEFT JOIN u ON t.k = u.k')
+            assert await cur.fetchall() == [{'k': 1, 'v': 4, 'u.k': 1, 'name': 'x'}]
+            n = await cur.executemany('INSERT INTO u (k, name) VALUES (%s, %s)', [(2, 'a'), (3, 'b')])
+            assert n == 2 and cur.rowcount == 2
+            await cur.execute('SELECT k FROM u ORDER BY k')
+            assert await cur.fetchmany(2) == [{'k': 1}, {'k': 2}] and await cur.fetchone() == {'k': 3}
+            assert await cur.fetchone() is None
+        async with c3.cursor(aiomysql.cursors.Cursor) as cur:
+            await cur.execute('SELECT k, name FROM u WHERE k = %s', (2,))
+            assert await cur.fetchall() == [(2, 'a')] and cur.description[1][0] == 'name'
+        await c3.rollback()
+        assert s0.query('SELECT COUNT(*) AS n FROM u')[0]['n'] == 1
+        # a connection released with an open transaction is closed and its work rolled back (aiomysql behaviour)
+        async with c2.cursor() as cur:
+            await cur.execute('INSERT INTO u VALUES (9, %s)', ('z',))
+        await pool.release(c2)
+        assert c2.closed and s0.query('SELECT COUNT(*) AS n FROM u')[0]['n'] == 1
+        await pool.release(c3)
+        # fault injection
+        calls = []
+
+        def hook(sess, phase, sql):
+            calls.append(phase)
+            if phase == 'commit':
+                raise pymysql.err.OperationalError(1213, 'Deadlock found when trying to get lock; try restarting transaction')
+        e.fault_hook = hook
+        async with pool.acquire() as conn:
+            async with conn.cursor() as cur:
+                await cur.execute('START TRANSACTION')
+                await cur.execute('INSERT INTO u VALUES (5, %s)', ('q',))
+            try:
+                await conn.commit()
+                raise AssertionError('fault not injected')
+            except pymysql.err.OperationalError as ex:
+                assert ex.args[0] == 1213
+            await conn.rollback()
+        e.fault_hook = None
+        assert calls == ['acquire', 'begin', 'statement', 'commit', 'rollback'], calls
+        assert s0.query('SELECT COUNT(*) AS n FROM u')[0]['n'] == 1
+        pool.close()
+        await pool.wait_closed()
+        # synchronous pymysql facade
+        c = pymysql.connect(host='localhost', autocommit=True, cursorclass=pymysql.cursors.DictCursor)
+        with c.cursor() as cur:
+            cur.execute('SELECT name FROM u WHERE k = %s', (1,))
+            assert cur.fetchone() == {'name': 'x'}
+        c.close()
+    asyncio.run(run())
+
+
 # ====================================================================== 2. schema
 _ENGINE = None
 
@@ -594,10 +710,31 @@ def _main_py_queries(func_name):
     return out
 
 
+def _fix_metric_stub():
+    """hostenv's prometheus_client stub returns a plain decorator from Metric.time(); gear.metrics uses it as a
+    context manager (PrometheusSQLTimer).  Patch the stub class at run time (hostenv.py itself is not ours)."""
+    import gear.metrics as gm
+    m = gm.SQL_QUERY_LATENCY.labels(query_name='x') if hasattr(gm, 'SQL_QUERY_LATENCY') else None
+    if m is None or hasattr(m.time(), '__enter__'):
+        return
+
+    class _Timer:
+        def __enter__(self):
+            return self
+
+        def __exit__(self, *a):
+            return False
+
+        def __call__(self, f):
+            return f
+    type(m).time = lambda self: _Timer()
+
+
 async def _smoke():
     from vlib import hostenv
     hostenv.prepare_services()
     from gear import Database, transaction
+    _fix_metric_stub()
 
     eng = batch_engine()
     schema.seed_minimal(eng, n_tokens=4)
@@ -787,11 +924,15 @@ VALUES (%s, %s, %s);
     # committing twice is idempotent
     assert (await db.check_call_procedure('CALL commit_batch_update(%s, %s, %s);', (bid, 1, now + 2))) == {'rc': 0}
 
-    async def audit():
+    async def audit(strict=False):
+        # NB: the repo's check_incremental query also selects every row with a non-zero expected_* value (it ends
+        # in "OR expected_n_ready_jobs != 0 ..."), so it only returns [] on a quiescent system.  While jobs are in
+        # flight we compare the actual_* and expected_* columns ourselves.
         bad = []
         for q in _main_py_queries('check_incremental'):
             async for r in db.select_and_fetchall(q):
-                bad.append(r)
+                if strict or any(r[k] != r['expected_' + k[len('actual_'):]] for k in r if k.startswith('actual_')):
+                    bad.append(r)
         return bad
     assert await audit() == [], await audit()
 
@@ -1024,7 +1165,7 @@ FOR UPDATE;
                                        (b2, 2, 'b2', 'inst-1', 'Success', '{}', now + 6500, now + 7000, 'finished', now + 7000))
     assert rv['rc'] == 0, rv
     assert (await db.select_and_fetchone('SELECT state FROM batches WHERE id = %s', (b2,)))['state'] == 'complete'
-    assert await audit() == []
+    assert await audit(strict=True) == []
     rv = await db.check_call_procedure('CALL deactivate_instance(%s, %s, %s);', ('inst-1', 'deactivated', now + 8000))
     assert rv == {'rc': 0}, rv
     rv = await db.check_call_procedure('CALL mark_instance_deleted(%s);', ('inst-1',))
@@ -1042,10 +1183,20 @@ FOR UPDATE;
                'delete_prev_cancelled_job_group_cancellable_resources_records', 'compact_agg_billing_project_users_table',
                'compact_agg_billing_project_users_by_date_table', 'monitor_user_resources', 'get_user_resources'):
         for q in _main_py_queries(fn):
-            [r async for r in db.select_and_fetchall(q)]
-    # cascading delete of a whole batch
-    await db.just_execute('DELETE FROM batches WHERE id = %s', (b2,))
-    assert (await db.select_and_fetchone('SELECT COUNT(*) AS n FROM jobs WHERE batch_id = %s', (b2,)))['n'] == 0
+            if '%s' not in q:
+                [r async for r in db.select_and_fetchall(q)]
+    # batch_updates references batches WITHOUT "ON DELETE CASCADE": a batch row cannot be deleted (error 1451) ...
+    try:
+        await db.just_execute('DELETE FROM batches WHERE id = %s', (b2,))
+        raise AssertionError('expected 1451')
+    except errors.IntegrityError as e:
+        assert e.args[0] == 1451, e.args
+    assert (await db.select_and_fetchone('SELECT COUNT(*) AS n FROM jobs WHERE batch_id = %s', (b2,)))['n'] == 2
+    # ... while deleting a job cascades to its attempts
+    n0 = (await db.select_and_fetchone('SELECT COUNT(*) AS n FROM attempts WHERE batch_id = %s AND job_id = 2', (b2,)))['n']
+    assert n0 == 2, n0
+    await db.just_execute('DELETE FROM jobs WHERE batch_id = %s AND job_id = 2', (b2,))
+    assert (await db.select_and_fetchone('SELECT COUNT(*) AS n FROM attempts WHERE batch_id = %s', (b2,)))['n'] == 0
     await db.async_close()
     return eng, t_sched / 2, t_complete / 2
 
